@@ -22,28 +22,34 @@ pub fn run(id: &str, o: &Oracle, tier: &str, seed: u64, rep: &Report) -> bool {
     let rounds = if thorough { 4_000_000 } else { 400_000 };
     match id {
         "C01" | "C02" | "C03" | "C04" | "C05" | "C06" | "C08" | "C09" | "C13" => {
-            history::ranking_history(o, seed, rep, rounds);
+            if id != "C09" {
+                history::ranking_history(o, id, seed, rep, rounds);
+            }
             if matches!(id, "C01" | "C06") {
-                history::five_pairs_history(o, seed, rep, thorough);
+                history::five_pairs_history(o, id, seed, rep, thorough);
             }
             if id == "C06" {
                 history::conversion_neighbours(o, rep);
             }
             if matches!(id, "C02" | "C03" | "C09" | "C06" | "C08") {
-                history::big_families_history(o, seed, rep, rounds / 8);
+                history::big_families_history(o, id, seed, rep, rounds / 8);
             }
-            history::repeat_then_neighbour_ranking(o, seed, rep, thorough);
+            if !matches!(id, "C08" | "C09") {
+                history::repeat_then_neighbour_ranking(o, id, seed, rep, thorough);
+            }
         }
         "C15" | "C16" => {
-            history::words_history(o, seed, rep, rounds);
-            history::peel_interleaving(o, seed, rep, rounds);
+            history::words_history(o, id, seed, rep, rounds);
+            if id == "C15" {
+                history::peel_interleaving(o, seed, rep, rounds);
+            }
             history::repeat_then_neighbour_misc(o, id, seed, rep);
         }
         "C07" | "C10" | "C14" | "C17" | "C18" | "C20" => {
-            history::words_history(o, seed, rep, rounds);
+            history::words_history(o, id, seed, rep, rounds);
             history::repeat_then_neighbour_misc(o, id, seed, rep);
             if id == "C07" {
-                history::conversion_neighbours(o, rep);
+                history::conversion_then_compare(o, rep);
             }
         }
         _ => {}
